@@ -531,6 +531,10 @@ def install(I):
         if isinstance(v, SV) and v.kind.tag == "any":
             yield v, st      # tuple(t) of a Val that is a tuple (definedness not checked: A-builtins)
             return
+        if isinstance(v, SV) and v.kind.tag == "list":
+            # tuple(xs) of a list of symbolic length: the same sequence as an immutable value (no home)
+            yield SV(v.kind, v.tree), st
+            return
         raise Unsupported("tuple(%r)" % (v,))
 
     @reg("list")
